@@ -6,6 +6,7 @@ From Salsa Require Import Base.
 From Salsa.Core Require Import Model Spec.
 From Salsa.Cycle Require Import Spec FallbackProofs.
 From Salsa.Cycle Require Cert Examples.
+From Salsa.Cycle Require FbInv FbThm FbExamples.
 
 (* The graph analysis of the specification computes what it should: [on_cycle g n q] holds
    exactly when a closed walk of at most n + 1 edges of the call graph passes through q. *)
@@ -107,3 +108,106 @@ Example C13_fresh_either_entry :
     [Salsa.Cycle.Model.COGet (3, 1); Salsa.Cycle.Model.COGet (3, 0)]
     = [Salsa.Cycle.Model.COk 165; Salsa.Cycle.Model.COk 165].
 Proof. exact Examples.ex13_fresh. Qed.
+
+
+(* ---------------------------------------------------------------- the fresh revision (stage G1)
+   PROVED over the executable Cycle model, for all programs of the following class and all
+   snapshots: starting from the initial database (no memos), ANY sequence of Gets (any entry order,
+   any subset, repeats) returns [spec_fallback] for every Get — the fallback value for exactly the
+   functions on a cycle of the current call graph, the body's value over those for every other
+   function; hence never a panic and never out-of-fuel — and the final state passes the decidable
+   certificate [is_fallback_state].  Fuel: any [fuel >= length ns], [nodes >= 1]; a cycle head
+   iterates at most 5 times (only the metadata durability/untracked can move), independently of the
+   number of nodes.  No monotonicity, no bound on the values.
+   Class (restriction of this stage, [FbInv.fbring_ok_of] + [input_determined] + [rank]): the call
+   graph of the snapshot is input-determined and layered by [lvl]; the only same-level call of a
+   node goes to [nxt] of it, [nxt] is injective and its edges are real calls; nodes with a
+   same-level call are functions with cycle_result (SFallback).  So every strongly connected
+   component is a simple ring of fallback functions, entered at any member; rings at different
+   levels may call each other downwards; everything off the rings is acyclic with any strategy
+   (fallback functions that are on no cycle return their body's value).  [rank] is the witness of
+   C13_spec_fallback_wd_partial that the graph minus its cyclic nodes is acyclic.
+   Several cycles through one node / nested heads are NOT covered by this stage. *)
+Theorem C13_fresh :
+  forall (prog : qkey -> body) (strat : N -> Salsa.Cycle.Model.strategy) (cinit : qkey -> val)
+         (iv : ikey -> val) (idur : ikey -> dur) (ns : list qkey)
+         (lvl : qkey -> nat) (nxt : qkey -> option qkey) (rank : qkey -> nat)
+         (nodes fuel : nat) (qs : list qkey),
+  let sn := Cert.csnap_of (Salsa.Cycle.Model.cinit_db iv idur) in
+  let cyc := fun q => mem q (cyclic_nodes (succs prog sn) ns) in
+  input_determined prog sn ->
+  FbInv.fbring_ok_of prog strat sn ns lvl nxt ->
+  (forall q q', cyc q = false -> In q' (succs prog sn q) -> cyc q' = false -> (rank q' < rank q)%nat) ->
+  (forall q, (rank q < length ns)%nat) ->
+  (1 <= nodes)%nat -> (length ns <= fuel)%nat -> (forall q, In q qs -> In q ns) ->
+  exists s',
+    Salsa.Cycle.Model.crun_ops prog strat cinit nodes fuel (Salsa.Cycle.Model.cinit_db iv idur)
+      (map Salsa.Cycle.Model.COGet qs)
+      = (s', map (fun q => Salsa.Cycle.Model.COk (spec_fallback prog sn cinit ns q)) qs) /\
+    Cert.is_fallback_state prog cinit ns s' = true.
+Proof. exact FbThm.fallback_ring. Qed.
+Check C13_fresh :
+  forall (prog : qkey -> body) (strat : N -> Salsa.Cycle.Model.strategy) (cinit : qkey -> val)
+         (iv : ikey -> val) (idur : ikey -> dur) (ns : list qkey)
+         (lvl : qkey -> nat) (nxt : qkey -> option qkey) (rank : qkey -> nat)
+         (nodes fuel : nat) (qs : list qkey),
+  let sn := Cert.csnap_of (Salsa.Cycle.Model.cinit_db iv idur) in
+  let cyc := fun q => mem q (cyclic_nodes (succs prog sn) ns) in
+  input_determined prog sn ->
+  FbInv.fbring_ok_of prog strat sn ns lvl nxt ->
+  (forall q q', cyc q = false -> In q' (succs prog sn q) -> cyc q' = false -> (rank q' < rank q)%nat) ->
+  (forall q, (rank q < length ns)%nat) ->
+  (1 <= nodes)%nat -> (length ns <= fuel)%nat -> (forall q, In q qs -> In q ns) ->
+  exists s',
+    Salsa.Cycle.Model.crun_ops prog strat cinit nodes fuel (Salsa.Cycle.Model.cinit_db iv idur)
+      (map Salsa.Cycle.Model.COGet qs)
+      = (s', map (fun q => Salsa.Cycle.Model.COk (spec_fallback prog sn cinit ns q)) qs) /\
+    Cert.is_fallback_state prog cinit ns s' = true.
+Print Assumptions C13_fresh.
+
+(* NOT PROVED (kept visible): the same statement for arbitrary strongly connected components of
+   fallback functions (several cycles through one node, nested heads).  Checked by the fuzzer
+   (fresh databases, random programs whose cycles go through fallback functions only, up to 5
+   keys per family: 72k reads, 0 mismatches, certificate always true) and by
+   [FbExamples.exc_two_cycles]. *)
+Definition C13_fresh_full_statement : Prop :=
+  forall (prog : qkey -> body) (strat : N -> Salsa.Cycle.Model.strategy) (cinit : qkey -> val)
+         (iv : ikey -> val) (idur : ikey -> dur) (ns : list qkey) (rank : qkey -> nat)
+         (nodes fuel : nat) (qs : list qkey),
+  let sn := Cert.csnap_of (Salsa.Cycle.Model.cinit_db iv idur) in
+  let cyc := fun q => mem q (cyclic_nodes (succs prog sn) ns) in
+  input_determined prog sn ->
+  (forall q d, In q ns -> In d (succs prog sn q) -> In d ns) ->
+  (forall q, cyc q = true -> strat (fst q) = Salsa.Cycle.Model.SFallback) ->
+  (forall q q', cyc q = false -> In q' (succs prog sn q) -> cyc q' = false -> (rank q' < rank q)%nat) ->
+  (forall q, (rank q < length ns)%nat) ->
+  (length ns <= nodes)%nat -> (length ns <= fuel)%nat -> (forall q, In q qs -> In q ns) ->
+  exists s',
+    Salsa.Cycle.Model.crun_ops prog strat cinit nodes fuel (Salsa.Cycle.Model.cinit_db iv idur)
+      (map Salsa.Cycle.Model.COGet qs)
+      = (s', map (fun q => Salsa.Cycle.Model.COk (spec_fallback prog sn cinit ns q)) qs) /\
+    Cert.is_fallback_state prog cinit ns s' = true.
+
+(* Non-vacuity of C13_fresh: a 3-node ring of fallback functions with non-monotone bodies over a
+   plain leaf, under a fallback function on no cycle and a plain caller, satisfies every
+   hypothesis, for every list of Gets; the ring entered at each member. *)
+Example C13_fresh_inhabited : forall (qs : list qkey), (forall q, In q qs -> In q FbExamples.exb_ns) ->
+  exists s',
+    Salsa.Cycle.Model.crun_ops FbExamples.exb_prog Examples.ex_strat Examples.ex_cinit 6 6
+      (Salsa.Cycle.Model.cinit_db FbExamples.exb_iv (fun _ => 0)) (map Salsa.Cycle.Model.COGet qs)
+      = (s', map (fun q => Salsa.Cycle.Model.COk
+                   (spec_fallback FbExamples.exb_prog FbExamples.exb_sn Examples.ex_cinit FbExamples.exb_ns q)) qs) /\
+    Cert.is_fallback_state FbExamples.exb_prog Examples.ex_cinit FbExamples.exb_ns s' = true.
+Proof. exact FbExamples.exb_fresh. Qed.
+Example C13_fresh_enter_each :
+  FbExamples.exb_outs [Salsa.Cycle.Model.COGet (3, 0); Salsa.Cycle.Model.COGet (3, 1); Salsa.Cycle.Model.COGet (3, 2)]
+    = [Salsa.Cycle.Model.COk 165; Salsa.Cycle.Model.COk 165; Salsa.Cycle.Model.COk 165] /\
+  FbExamples.exb_outs [Salsa.Cycle.Model.COGet (3, 1); Salsa.Cycle.Model.COGet (3, 2); Salsa.Cycle.Model.COGet (3, 0)]
+    = [Salsa.Cycle.Model.COk 165; Salsa.Cycle.Model.COk 165; Salsa.Cycle.Model.COk 165] /\
+  FbExamples.exb_outs [Salsa.Cycle.Model.COGet (3, 2); Salsa.Cycle.Model.COGet (3, 0); Salsa.Cycle.Model.COGet (3, 1)]
+    = [Salsa.Cycle.Model.COk 165; Salsa.Cycle.Model.COk 165; Salsa.Cycle.Model.COk 165] /\
+  FbExamples.exb_outs [Salsa.Cycle.Model.COGet (0, 1); Salsa.Cycle.Model.COGet (3, 2); Salsa.Cycle.Model.COGet (3, 3);
+                       Salsa.Cycle.Model.COGet (0, 0); Salsa.Cycle.Model.COGet (3, 1)]
+    = [Salsa.Cycle.Model.COk 334; Salsa.Cycle.Model.COk 165; Salsa.Cycle.Model.COk 167;
+       Salsa.Cycle.Model.COk 7; Salsa.Cycle.Model.COk 165].
+Proof. exact FbExamples.exb_enter_each. Qed.
